@@ -20,7 +20,10 @@ import (
 	"go/ast"
 	"go/constant"
 	"go/token"
+	"go/types"
+	"reflect"
 	"sort"
+	"strconv"
 	"strings"
 
 	"golang.org/x/tools/go/packages"
@@ -520,17 +523,24 @@ func configExtra(t *tr) string {
 				return false
 			}
 			if ifs, ok := n.(*ast.IfStmt); ok {
-				parseConds = append(parseConds, cfSrc(pc, ifs.Cond))
+				if c := cfSrc(pc, ifs.Cond); c != "tag.Debug" {
+					parseConds = append(parseConds, c)
+				} else {
+					return false // debug logging only
+				}
 			}
 			return true
 		})
+		sort.Strings(parseConds)
 		if closure == nil {
 			t.errs = append(t.errs, "parseConf: the fillConf closure not found")
 		} else {
 			for _, st := range closure.Body.List {
 				switch x := st.(type) {
 				case *ast.IfStmt:
-					fillStmts = append(fillStmts, "if "+cfSrc(pc, x.Cond))
+					if c := cfSrc(pc, x.Cond); c != "tag.Debug" {
+						fillStmts = append(fillStmts, "if "+c)
+					}
 				default:
 					fillStmts = append(fillStmts, cfSrc(pc, st))
 				}
@@ -557,8 +567,8 @@ func configExtra(t *tr) string {
 			})
 		}
 	}
-	b.WriteString("/-- `parseConf`: the conditions it tests, in source order (outside the fillConf closure) -/\ndef parseConfConds : List String := " + cfQ(parseConds) + "\n")
-	b.WriteString("/-- the fillConf closure of `parseConf`: its statements (an `if` by its condition) -/\ndef fillConfStmts : List String := " + cfQ(fillStmts) + "\n")
+	b.WriteString("/-- `parseConf`: the conditions it tests (sorted; outside the fillConf closure, debug logging left out) -/\ndef parseConfConds : List String := " + cfQ(parseConds) + "\n")
+	b.WriteString("/-- the fillConf closure of `parseConf`: its statements (an `if` by its condition; debug logging left out) -/\ndef fillConfStmts : List String := " + cfQ(fillStmts) + "\n")
 	b.WriteString("/-- every return of the fillConf closure -/\ndef fillConfReturns : List String := " + cfQ(fillReturns) + "\n")
 	b.WriteString("/-- what `Hook` / `FactoryHook` return -/\ndef pluginHookCalls : List String := " + cfQ(hookCalls) + "\n")
 	var dvStmts []string
@@ -620,6 +630,72 @@ func configExtra(t *tr) string {
 		}
 	}
 	b.WriteString("/-- what the repo's own validations return -/\ndef validationReturns : List (String × String) := " + cfPairs(vrets) + "\n\n")
+
+	// ---- 5c. every `validate:"…"` struct tag of the repository's non-test packages (examples / tests left out)
+	{
+		cfgAll := &packages.Config{Mode: packages.NeedName | packages.NeedSyntax | packages.NeedFiles, Dir: repo, BuildFlags: []string{"-tags=verif"}}
+		all, err := packages.Load(cfgAll, "github.com/yandex/pandora/...")
+		if err != nil {
+			t.errs = append(t.errs, "loading all packages: "+err.Error())
+		}
+		var rows [][3]string
+		var walk func(owner string, st *ast.StructType)
+		walk = func(owner string, st *ast.StructType) {
+			for _, f := range st.Fields.List {
+				names := []string{}
+				for _, n := range f.Names {
+					names = append(names, n.Name)
+				}
+				if len(names) == 0 {
+					names = []string{strings.TrimPrefix(strings.Join(strings.Fields(types.ExprString(f.Type)), ""), "*")}
+				}
+				if f.Tag != nil {
+					if tagText, err := strconv.Unquote(f.Tag.Value); err == nil {
+						if v, ok := reflect.StructTag(tagText).Lookup("validate"); ok {
+							for _, n := range names {
+								rows = append(rows, [3]string{owner, n, v})
+							}
+						}
+					}
+				}
+				if inner, ok := f.Type.(*ast.StructType); ok {
+					for _, n := range names {
+						walk(owner+"."+n, inner)
+					}
+				}
+			}
+		}
+		for _, pk := range all {
+			rel := strings.TrimPrefix(pk.PkgPath, "github.com/yandex/pandora/")
+			if strings.HasPrefix(rel, "examples") || strings.HasPrefix(rel, "tests") || strings.Contains(rel, "/mocks") {
+				continue
+			}
+			for _, f := range pk.Syntax {
+				ast.Inspect(f, func(n ast.Node) bool {
+					ts, ok := n.(*ast.TypeSpec)
+					if !ok {
+						return true
+					}
+					if st, ok := ts.Type.(*ast.StructType); ok {
+						walk(rel+"."+ts.Name.Name, st)
+					}
+					return true
+				})
+			}
+		}
+		sort.Slice(rows, func(i, j int) bool {
+			if rows[i][0] != rows[j][0] {
+				return rows[i][0] < rows[j][0]
+			}
+			return rows[i][1] < rows[j][1]
+		})
+		var q []string
+		for _, r := range rows {
+			q = append(q, fmt.Sprintf("(%q, %q, %q)", r[0], r[1], r[2]))
+		}
+		b.WriteString("/-- every `validate` struct tag of the non-test packages: (package.Type, field, tag), sorted -/\n")
+		b.WriteString("def validateTags : List (String × String × String) := [\n  " + strings.Join(q, ",\n  ") + "]\n\n")
+	}
 
 	// ---- 6. cli.readConfig discard_overflow defaulting
 	cp := load("github.com/yandex/pandora/cli")
